@@ -591,6 +591,9 @@ func (r *Rule) ToBiscuit(parameters ParametersMap) (*biscuit.Rule, error) {
 			{
 				var expr biscuit.Expression
 				(*p.Expression).ToExpr(&expr, parameters)
+				if err := checkExpressionTerms(expr); err != nil {
+					return nil, err
+				}
 
 				expressions = append(expressions, expr)
 			}
@@ -607,6 +610,18 @@ func (r *Rule) ToBiscuit(parameters ParametersMap) (*biscuit.Rule, error) {
 		Body:        body,
 		Expressions: expressions,
 	}, nil
+}
+
+// checkExpressionTerms reports terms that could not be converted while building
+// an expression (unbound parameter, malformed date or bytes literal, variable
+// in a set): ToExpr has no error result and leaves such terms nil.
+func checkExpressionTerms(expr biscuit.Expression) error {
+	for _, op := range expr {
+		if v, ok := op.(biscuit.Value); ok && v.Term == nil {
+			return ErrInvalidExpressionTerm
+		}
+	}
+	return nil
 }
 
 func (c *Check) ToBiscuit(parameters ParametersMap) (*biscuit.Check, error) {
@@ -643,6 +658,9 @@ func (r *CheckQuery) ToBiscuit(parameters ParametersMap) (*biscuit.Rule, error) 
 			{
 				var expr biscuit.Expression
 				(*p.Expression).ToExpr(&expr, parameters)
+				if err := checkExpressionTerms(expr); err != nil {
+					return nil, err
+				}
 
 				expressions = append(expressions, expr)
 			}
